@@ -135,6 +135,20 @@ def main(argv=None):
                 results.append(dict(contract=n, obligations=[], paths=0, errors=['worker crashed: %r' % (e,)],
                                     assumptions=[], functions=[], rewrites={}, stats={}, covers=0, wall_s=0))
     known_open, known_fixed = load_known(a.prop)
+    # bounded stand-in: boundary inputs listed by the contracts, run on the native code (never counted as proved)
+    probe_out = ''
+    probe_fail = []
+    if any(getattr(REGISTRY[n], 'probes', None) for n in names):
+        try:
+            pp = subprocess.run([sys.executable, '-m', 'pyvc.replay', '--probes', a.prop, os.path.join(ROOT, 'replays', a.prop)]
+                                + ([a.only] if a.only else []), cwd=ROOT, capture_output=True, text=True, timeout=1800,
+                                env=dict(os.environ, PYVC_REPO=a.repo))
+            probe_out = pp.stdout[-3000:]
+            for line in pp.stdout.split('\n'):
+                if line.startswith('PROBE-FAIL '):
+                    probe_fail.append(line.split(' ', 3))
+        except subprocess.TimeoutExpired:
+            probe_out = 'probes timed out'
     n_ob = n_dis = 0
     violations = []
     undecided = []
@@ -204,6 +218,15 @@ def main(argv=None):
         seen_kf.add(key)
         print('KNOWN-FINDING: property=%s %s' % (a.prop, kf['what']))
     viol_records = []
+    for pf in probe_fail:
+        kf = match_known(known_open, pf[1], pf[3])
+        if kf is not None:
+            print('KNOWN-FINDING: property=%s %s' % (a.prop, kf['what']))
+            continue
+        print('VIOLATION property=%s replay=%s' % (a.prop, pf[2]))
+        print('  bounded native probe of %s fails: %s' % (pf[1], pf[3][:200]))
+        viol_records.append(dict(contract=pf[1], obligation=pf[3][:200], replay=pf[2], reproduced_natively=True))
+        exit_code = 1
     if violations:
         outdir = os.path.join(ROOT, 'replays', a.prop)
         seen = set()
@@ -257,7 +280,7 @@ def main(argv=None):
     if not a.no_evidence:
         write_evidence(a.prop, tier, seed, wall, names, results, n_ob, n_dis, backends, solver_s, samples, functions,
                        sorted(assumptions), rewrites, shape_bounds, paths, covers, viol_records, known_hits, undecided,
-                       engine_errors)
+                       engine_errors, probe_out)
     return exit_code
 
 
@@ -274,7 +297,8 @@ TRUSTED = [
 
 
 def write_evidence(prop, tier, seed, wall, names, results, n_ob, n_dis, backends, solver_s, samples, functions,
-                   assumptions, rewrites, shape_bounds, paths, covers, viol_records, known_hits, undecided, engine_errors):
+                   assumptions, rewrites, shape_bounds, paths, covers, viol_records, known_hits, undecided, engine_errors,
+                   probe_out=''):
     os.makedirs(os.path.join(ROOT, 'evidence'), exist_ok=True)
     # obligations matched by a LISTED known finding are reported separately (known_findings below): the clause is
     # known to fail on the listed input class, it is not counted as an obligation of the proof nor as discharged
@@ -297,6 +321,8 @@ def write_evidence(prop, tier, seed, wall, names, results, n_ob, n_dis, backends
                            obligations=len(r.get('obligations', [])),
                            discharged=sum(1 for o in r.get('obligations', []) if o['status'] == 'proved'),
                            wall_s=r.get('wall_s'), description=r.get('description', '')[:300]) for r in results],
+        bounded_standins=[dict(what='boundary inputs listed by the contracts run on the native code (never counted as proved)',
+                               output=probe_out[-600:])] if probe_out else [],
         violations=viol_records,
         known_findings=[dict(id=kf.get('id'), what=kf['what'], contract=cn, obligation=o['name']) for kf, cn, o in known_hits][:40],
         undecided=[dict(contract=c, what=w) for c, w in undecided][:40],
